@@ -1,33 +1,33 @@
 SPECIFICATION MCSpec
 CONSTANTS
-  SetupIds = {1}
+  SetupIds = {1,2,3}
   RegIds = {1,2}
   FileIds = {1,2}
   CliIds = {1,2}
-  SrvIds = {1,2}
+  SrvIds = {1,2,3}
   TrackObs = FALSE
   TrackDeps = FALSE
   Dev = "none"
-  SetupPlan <- Ksf_SetupPlan
-  RegPlan <- Ksf_RegPlan
-  RegIdus <- Ksf_RegIdus
-  RegIdss <- Ksf_RegIdss
-  RegKsfs <- Ksf_RegKsfs
-  CliPw <- Ksf_CliPw
-  SrvSetups <- Ksf_SrvSetups
-  SrvRecs <- Ksf_SrvRecs
-  SrvCids <- Ksf_SrvCids
-  SrvCtxs <- Ksf_SrvCtxs
-  SrvIdus <- Ksf_SrvIdus
-  SrvIdss <- Ksf_SrvIdss
-  CliCtxs <- Ksf_CliCtxs
-  CliIdus <- Ksf_CliIdus
-  CliIdss <- Ksf_CliIdss
-  CliKsfs <- Ksf_CliKsfs
-  MutPlan <- Ksf_MutPlan
+  SetupPlan <- Ext_SetupPlan
+  RegPlan <- Ext_RegPlan
+  RegIdus <- Ext_RegIdus
+  RegIdss <- Ext_RegIdss
+  RegKsfs <- Ext_RegKsfs
+  CliPw <- Ext_CliPw
+  SrvSetups <- Ext_SrvSetups
+  SrvRecs <- Ext_SrvRecs
+  SrvCids <- Ext_SrvCids
+  SrvCtxs <- Ext_SrvCtxs
+  SrvIdus <- Ext_SrvIdus
+  SrvIdss <- Ext_SrvIdss
+  CliCtxs <- Ext_CliCtxs
+  CliIdus <- Ext_CliIdus
+  CliIdss <- Ext_CliIdss
+  CliKsfs <- Ext_CliKsfs
+  MutPlan <- Ext_MutPlan
   Splice = FALSE
   Reloads = FALSE
-  ExtFail = FALSE
+  ExtFail = TRUE
   MaxFree = 100
 INVARIANT Agreement
 INVARIANT ClientAcceptsOnlyMatched
